@@ -120,8 +120,9 @@ class Histories(Part):
     chunk = 250
 
     def strategy(self, tier):
-        cfg = st.builds(lambda cs, ft, w, nc: {"color_system": cs, "terminal": ft, "width": w, "no_color": nc},
-                        st.sampled_from([None, "standard", "256", "truecolor", "truecolor"]), st.sampled_from([True, True, False]), st.integers(20, 120), st.sampled_from([False, False, True]))
+        cfg = st.builds(lambda cs, ft, w, nc, rl: {"color_system": cs, "terminal": ft, "width": w, "no_color": nc, "record_late": rl},
+                        st.sampled_from([None, "standard", "256", "truecolor", "truecolor"]), st.sampled_from([True, True, False]), st.integers(20, 120), st.sampled_from([False, False, True]),
+                        st.sampled_from([False, False, True]))
         free = st.lists(op_strategy(), min_size=1, max_size=25)
         seg = st.tuples(seg_text(), st.sampled_from(GS.PALETTE)).map(list)
         styled = st.lists(seg, min_size=2, max_size=4).map(lambda s_: ["print", ["text", s_]])
@@ -147,7 +148,13 @@ class Histories(Part):
                     record=record, legacy_windows=False, log_path=False, get_datetime=now, _environ={})
             return c, f
 
-        con, f = mk(True)
+        if cfg.get("record_late"):
+            # recording is switched on after the console was made (console.record = True)
+            con, f = mk(False)
+            con.record = True
+            ctx.cls("record-switched-on-later")
+        else:
+            con, f = mk(True)
         twin, tf = mk(False)
         caps = []  # (Capture object, what it returned)
         mark = 0  # file offset of the last clearing export
